@@ -262,7 +262,7 @@ def gen_tables(hooks_on=True):
 # ---------------------------------------------------------------------------------------------
 # Coq build
 # ---------------------------------------------------------------------------------------------
-FORBIDDEN = re.compile(r"\b(Admitted|admit|Axiom|Axioms|Parameter|Parameters|Conjecture|Hypothesis|Variable)\b|Unset Guard|bypass_check|Admit Obligations|type-in-type|impredicative-set")
+FORBIDDEN = re.compile(r"\b(Admitted|admit|Axiom|Axioms|Parameter|Parameters|Conjecture|Hypothesis|Hypotheses|Variable|Variables|give_up)\b|^\s*(?:Local\s+|Global\s+)?Context\b|^\s*Abort\b|Unset Guard|Unset Positivity|Unset Universe|bypass_check|Admit Obligations|type-in-type|impredicative-set")
 ALLOWED_AXIOMS = {
     "ClassicalDedekindReals.sig_not_dec", "ClassicalDedekindReals.sig_forall_dec",
     "FunctionalExtensionality.functional_extensionality_dep", "Classical_Prop.classic",
@@ -301,8 +301,8 @@ def audit_sources():
                 if re.match(r"\s*End\b", line) and depth:
                     depth -= 1
                 for m in FORBIDDEN.finditer(line):
-                    w = m.group(0)
-                    if w in ("Variable", "Hypothesis") and depth > 0:
+                    w = m.group(0).strip()
+                    if w.split()[-1] in ("Variable", "Hypothesis", "Variables", "Hypotheses", "Context") and depth > 0:
                         continue
                     problems.append("%s:%d: %s" % (os.path.relpath(p, ROOT), ln, w))
     return problems
